@@ -12,6 +12,7 @@ import time
 import traceback
 
 VERIF = os.path.dirname(os.path.dirname(os.path.abspath(__file__)))
+OUTDIR = os.environ.get("VERIF_OUT", VERIF)  # seeded-defect experiments write evidence / replays elsewhere
 
 
 def _worker(job):
@@ -120,7 +121,7 @@ def finish(mod, pid, tier, seed, reports, aux, wall):
 
     out_lines = []
     new_violations = []
-    os.makedirs(os.path.join(VERIF, "replays", pid), exist_ok=True)
+    os.makedirs(os.path.join(OUTDIR, "replays", pid), exist_ok=True)
     seen_known = {}
     for v in violations:
         e = match_known(known, v["cell"], v["label"])
@@ -132,7 +133,7 @@ def finish(mod, pid, tier, seed, reports, aux, wall):
                    "model": v.get("model"), "detail": v.get("detail"), "replay": v.get("replay"), "mode": v.get("mode"),
                    "prefix": v.get("prefix")}
         h = hashlib.sha1(json.dumps([v["cell"], v["label"]], sort_keys=True, default=str).encode()).hexdigest()[:12]
-        path = os.path.join(VERIF, "replays", pid, f"{h}.json")
+        path = os.path.join(OUTDIR, "replays", pid, f"{h}.json")
         json.dump(payload, open(path, "w"), indent=1, default=str)
         new_violations.append((v, path))
     for eid, (e, cnt) in sorted(seen_known.items()):
@@ -211,8 +212,8 @@ def finish(mod, pid, tier, seed, reports, aux, wall):
     }
     if aux and aux.get("coverage_extra"):
         evidence["coverage"].update(aux["coverage_extra"])
-    os.makedirs(os.path.join(VERIF, "evidence"), exist_ok=True)
-    json.dump(evidence, open(os.path.join(VERIF, "evidence", f"{pid}.json"), "w"), indent=1, default=str)
+    os.makedirs(os.path.join(OUTDIR, "evidence"), exist_ok=True)
+    json.dump(evidence, open(os.path.join(OUTDIR, "evidence", f"{pid}.json"), "w"), indent=1, default=str)
     print(f"[{pid}] tier={tier} cells={agg['cells']} paths={agg['paths']} obligations={agg['obligations']} proved={agg['proved']} "
           f"refuted={agg['refuted']} unknown={agg['unknown']} by_mode={by_mode} queries={agg['queries']} solver_s={agg['solver_s']:.1f} "
           f"inconclusive={len(inconclusive)} errors={len(errors)} wall={wall:.1f}s")
